@@ -162,8 +162,8 @@ Theorem derived_override_sees_converted_value_refuted :
   process (lower ex_decls) [("a"%string, bits_3_7)] = Some [GI32 3; GI32 7].
 Proof. exact derived_sees_unconverted_value_refuted. Qed.
 
-Theorem nan_means_not_set_refuted :
-  subst_overrides [mkDecl "a" None (Some TI32) (Some (ELit (LInt 7 SNone)))] [("a"%string, nan_bits)] = Ok [VI32 7] /\
+Theorem nan_for_numeric_override_is_error_refuted :
+  subst_overrides [mkDecl "a" None (Some TI32) (Some (ELit (LInt 7 SNone)))] [("a"%string, nan_bits)] = Err EConv /\
   process (lower [mkDecl "a" None (Some TI32) (Some (ELit (LInt 7 SNone)))]) [("a"%string, nan_bits)] = Some [GI32 2147483648].
 Proof. exact nan_taken_as_value_refuted. Qed.
 
